@@ -67,6 +67,7 @@ func init() {
 					defer func() {
 						e.quiet--
 						e.assumes = e.assumes[:saveAss]
+						e.assumePCs = e.assumePCs[:saveAss]
 					}()
 					e.callFn(fr, c.instr, cl.fn, callArgs(stD), cl.bindings, errType(), stD, c.pc, c.label+".walkfn")
 				}()
